@@ -26,23 +26,26 @@ Record IdInv (s : state) : Prop := {
   id_mu : forall mu sym, get mu (minunits s) = Some sym -> exists t, get sym (tokens s) = Some t /\ t_minunit t = mu }.
 
 (** a token's ERC20 contract stays, or (from none) becomes the next fresh contract id *)
-Definition contract_step (s s' : state) (c c' : Z) : Prop :=
-  (c' = c /\ next_contract s' = next_contract s)
-  \/ (c = 0 /\ c' = next_contract s /\ next_contract s' = next_contract s + 1).
+Notation nc s := (next_contract s, contracts s).
+
+Definition contract_step (s s' : state) (sym : name) (c c' : Z) : Prop :=
+  (c' = c /\ nc s' = nc s)
+  \/ (c = 0 /\ c' = next_contract s /\ next_contract s' = next_contract s + 1
+      /\ contracts s' = if next_contract s =? 0 then contracts s else set (next_contract s) sym (contracts s)).
 
 (** how one successful message may change the registry *)
 Inductive tok_step (m : msg) (s s' : state) : Prop :=
-| TSsame : tokens s' = tokens s -> minunits s' = minunits s -> next_contract s' = next_contract s -> tok_step m s s'
+| TSsame : tokens s' = tokens s -> minunits s' = minunits s -> nc s' = nc s -> tok_step m s s'
 | TSupd sym t t' :
     get sym (tokens s) = Some t -> tokens s' = set sym t' (tokens s) -> minunits s' = minunits s ->
     same_identity t t' -> (same_gov t t' \/ authorised m t) ->
-    contract_step s s' (t_contract t) (t_contract t') -> tok_step m s s'
+    contract_step s s' sym (t_contract t) (t_contract t') -> tok_step m s s'
 | TSnew t :
     get (t_symbol t) (tokens s) = None -> get (t_minunit t) (minunits s) = None ->
     tokens s' = set (t_symbol t) t (tokens s) -> minunits s' = set (t_minunit t) (t_symbol t) (minunits s) ->
-    contract_step s s' 0 (t_contract t) -> tok_step m s s'.
+    contract_step s s' (t_symbol t) 0 (t_contract t) -> tok_step m s s'.
 
-Lemma bank_only_next s s' : bank_only s s' -> next_contract s' = next_contract s.
+Lemma bank_only_next s s' : bank_only s s' -> nc s' = nc s.
 Proof. intros (B & S & ->). reflexivity. Qed.
 
 Lemma upsert_fields s t :
@@ -207,14 +210,16 @@ Proof.
     + simpl. rewrite Hum. simpl. rewrite Hmu, Hsy. apply set_same_id. assumption.
     + repeat split.
     + left. repeat split.
-    + right. apply Bool.negb_false_iff, Z.eqb_eq in E0. split; [assumption|]. split; reflexivity.
+    + right. apply Bool.negb_false_iff, Z.eqb_eq in E0. split; [assumption|]. split; [reflexivity|]. split; [reflexivity|].
+      simpl. unfold upsert_token. simpl. rewrite Hsy. destruct (next_contract s =? 0); reflexivity.
   - destruct (has sym (tokens s)) eqn:Es; cbn [bind] in H; [discriminate|].
     inv_if H. inv_if H. inv_if H. inv_if H. inversion H.
     set (t' := mkToken sym minu scale 0 0 true MODULE (next_contract s) nm).
     destruct (upsert_fields s t') as (Hut & Hum & _).
     apply has_false in Eh. apply has_false in Es.
     apply TSnew with (t := t'); simpl; try assumption.
-    right. repeat split.
+    right. split; [reflexivity|]. split; [reflexivity|]. split; [reflexivity|].
+    unfold upsert_token. simpl. destruct (next_contract s =? 0); reflexivity.
 Qed.
 
 Lemma do_swapfee_only s sender receiver denom amt s' :
@@ -248,7 +253,7 @@ Proof.
     apply TSnew with (t := t); simpl; try assumption.
     + rewrite Ht', Ht3, Hut, Ht1. reflexivity.
     + rewrite Hm', Hm3, Hum, Hm1. reflexivity.
-    + left. split; [reflexivity|]. rewrite Hn', Hn3, Hun, Hn1. reflexivity.
+    + left. split; [reflexivity|]. rewrite Hn', Hn3. transitivity (nc s1); [reflexivity|exact Hn1].
   - (* Edit *)
     apply do_edit_inv in H. destruct H as (t & Ht & Ho & _ & ->).
     eapply TSupd with (sym := sym) (t := t); [eassumption|reflexivity|reflexivity|repeat split| |left; split; reflexivity].
@@ -842,54 +847,76 @@ Proof.
       assert (Hz : eqb fd denom = false) by (apply eqb_false_iff; assumption). rewrite Hz. unfold ind. lia.
 Qed.
 
-(** ** ERC20 contract ids are handed out once: no two tokens share a contract *)
+(** ** ERC20 contract ids are handed out once: no two tokens share a contract, and the contract
+    index points to the token that carries the contract *)
 Record CtrInv (s : state) : Prop := {
   ctr_pos : 0 < next_contract s;
   ctr_lt : forall sym t, get sym (tokens s) = Some t -> t_contract t < next_contract s;
   ctr_inj : forall sym1 sym2 t1 t2, get sym1 (tokens s) = Some t1 -> get sym2 (tokens s) = Some t2 ->
-    t_contract t1 = t_contract t2 -> t_contract t1 <> 0 -> sym1 = sym2 }.
+    t_contract t1 = t_contract t2 -> t_contract t1 <> 0 -> sym1 = sym2;
+  ctr_idx : forall c sym, get c (contracts s) = Some sym ->
+    c <> 0 /\ exists t, get sym (tokens s) = Some t /\ t_contract t = c }.
 
 Lemma ctr_update s s' sym t' : CtrInv s -> tokens s' = set sym t' (tokens s) ->
-  (((exists t, get sym (tokens s) = Some t /\ t_contract t' = t_contract t) \/ t_contract t' = 0)
-   /\ next_contract s' = next_contract s)
-  \/ (t_contract t' = next_contract s /\ next_contract s' = next_contract s + 1) ->
+  (((exists t, get sym (tokens s) = Some t /\ t_contract t' = t_contract t) \/ (get sym (tokens s) = None /\ t_contract t' = 0))
+   /\ next_contract s' = next_contract s /\ contracts s' = contracts s)
+  \/ ((get sym (tokens s) = None \/ exists t, get sym (tokens s) = Some t /\ t_contract t = 0)
+      /\ t_contract t' = next_contract s /\ next_contract s' = next_contract s + 1
+      /\ contracts s' = set (next_contract s) sym (contracts s)) ->
   CtrInv s'.
 Proof.
-  intros [P L J] Ht Hc. constructor.
-  - destruct Hc as [[_ Hn]|[_ Hn]]; rewrite Hn; lia.
+  intros [P L J X] Ht Hc. constructor.
+  - destruct Hc as [(_ & Hn & _)|(_ & _ & Hn & _)]; rewrite Hn; lia.
   - intros sym0 t0. rewrite Ht, get_set. destruct (eqb sym0 sym) eqn:E.
     + intros H0. inversion H0; subst t0.
-      destruct Hc as [[[(t & Hg & Hc)|Hz] Hn]|[Hc Hn]]; rewrite Hn.
+      destruct Hc as [([(t & Hg & Hc)|[_ Hz]] & Hn & _)|(_ & Hc & Hn & _)]; rewrite Hn.
       * rewrite Hc. apply (L sym t Hg).
       * lia.
       * lia.
-    + intros H0. specialize (L _ _ H0). destruct Hc as [[_ Hn]|[_ Hn]]; rewrite Hn; lia.
+    + intros H0. specialize (L _ _ H0). destruct Hc as [(_ & Hn & _)|(_ & _ & Hn & _)]; rewrite Hn; lia.
   - intros sym1 sym2 t1 t2. rewrite Ht, !get_set.
     destruct (eqb sym1 sym) eqn:E1; destruct (eqb sym2 sym) eqn:E2.
     + apply eqb_eq in E1. apply eqb_eq in E2. congruence.
     + intros H1 H2 Heq Hnz. inversion H1; subst t1. exfalso.
-      destruct Hc as [[[(t & Hg & Hc)|Hz] Hn]|[Hc Hn]].
+      destruct Hc as [([(t & Hg & Hc)|[_ Hz]] & Hn & _)|(_ & Hc & Hn & _)].
       * apply eqb_neq in E2. apply E2. symmetry. apply (J sym sym2 t t2 Hg H2); congruence.
       * congruence.
       * specialize (L _ _ H2). lia.
     + intros H1 H2 Heq Hnz. inversion H2; subst t2. exfalso.
-      destruct Hc as [[[(t & Hg & Hc)|Hz] Hn]|[Hc Hn]].
+      destruct Hc as [([(t & Hg & Hc)|[_ Hz]] & Hn & _)|(_ & Hc & Hn & _)].
       * apply eqb_neq in E1. apply E1. apply (J sym1 sym t1 t H1 Hg); congruence.
       * congruence.
       * specialize (L _ _ H1). lia.
     + apply J.
+  - intros c0 sym0. rewrite Ht.
+    destruct Hc as [(Hold & _ & Hcs)|(Hold & Hc & _ & Hcs)]; rewrite Hcs.
+    + intros H0. destruct (X _ _ H0) as (Hnz & t0 & Hg0 & Hc0). split; [assumption|].
+      rewrite get_set. destruct (eqb sym0 sym) eqn:E.
+      * apply eqb_eq in E. subst sym0. exists t'. split; [reflexivity|].
+        destruct Hold as [(t & Hg & Hc)|[Hnone _]]; congruence.
+      * exists t0. split; assumption.
+    + rewrite get_set. destruct (eqb c0 (next_contract s)) eqn:Ec.
+      * apply eqb_eq in Ec. subst c0. intros H0. inversion H0; subst sym0. split; [lia|].
+        exists t'. split; [apply get_set_same|assumption].
+      * intros H0. destruct (X _ _ H0) as (Hnz & t0 & Hg0 & Hc0). split; [assumption|].
+        rewrite get_set. destruct (eqb sym0 sym) eqn:E.
+        -- apply eqb_eq in E. subst sym0. exfalso.
+           destruct Hold as [Hnone|(t & Hg & Hz)]; congruence.
+        -- exists t0. split; assumption.
 Qed.
 
 Lemma tok_step_CtrInv m s s' : CtrInv s -> tok_step m s s' -> CtrInv s'.
 Proof.
   intros C [Ht Hm Hn | sym t t' Hg Ht Hm _ _ Hc | t Hs Hmn Ht Hm Hc].
-  - destruct C as [P L J]. constructor; rewrite ?Ht, ?Hn; assumption.
-  - apply (ctr_update s s' sym t' C Ht). destruct Hc as [[Hc Hn]|(Hz & Hc & Hn)].
-    + left. split; [left; exists t; split; assumption|assumption].
-    + right. split; assumption.
-  - apply (ctr_update s s' (t_symbol t) t C Ht). destruct Hc as [[Hc Hn]|(Hz & Hc & Hn)].
-    + left. split; [right; assumption|assumption].
-    + right. split; assumption.
+  - injection Hn as Hn1 Hn2. destruct C as [P L J X]. constructor; rewrite ?Ht, ?Hn1, ?Hn2; assumption.
+  - apply (ctr_update s s' sym t' C Ht). destruct Hc as [[Hc Hn]|(Hz & Hc & Hn & Hcs)].
+    + injection Hn as Hn1 Hn2. left. split; [left; exists t; split; assumption|split; assumption].
+    + right. split; [right; exists t; split; assumption|]. split; [assumption|]. split; [assumption|].
+      rewrite Hcs. pose proof (ctr_pos s C). destruct (next_contract s =? 0) eqn:E0; [apply Z.eqb_eq in E0; lia|reflexivity].
+  - apply (ctr_update s s' (t_symbol t) t C Ht). destruct Hc as [[Hc Hn]|(Hz & Hc & Hn & Hcs)].
+    + injection Hn as Hn1 Hn2. left. split; [right; split; assumption|split; assumption].
+    + right. split; [left; assumption|]. split; [assumption|]. split; [assumption|].
+      rewrite Hcs. pose proof (ctr_pos s C). destruct (next_contract s =? 0) eqn:E0; [apply Z.eqb_eq in E0; lia|reflexivity].
 Qed.
 
 Lemma step_CtrInv s m : IdInv s -> CtrInv s -> CtrInv (step s m).
